@@ -7,6 +7,7 @@ Section RW.
   Variable rm : string -> string -> bool.
   Variable fo : string -> string -> json -> option bool.
   Variable md : smode.
+  Variable usenum : bool.
 
   (* class 7: a property that may not carry a value in this reading (read-only in a request,
      write-only in a response) does not admit null either, so a present null member is rejected
@@ -16,7 +17,7 @@ Section RW.
     | Sch _ _ _ _ _ _ props _ =>
         forallb (fun kp => negb (forbidden md (core_of (snd kp))) || negb (satb rc rm fo md (snd kp) JNull)) props
     end.
-  Definition here_ok2 (s : schema) : bool := here_ok rc s && g_rw_here s.
+  Definition here_ok2 (s : schema) : bool := here_ok rc s && g_rw_here s && g_enum_here usenum (core_of s).
   Definition g_all2 : schema -> bool := all_sub here_ok2.
   Definition g_rw : schema -> bool := all_sub g_rw_here.
 End RW.
